@@ -9,3 +9,6 @@ func raceOff() {}
 func raceOn() {}
 
 const RaceBuild = false
+
+func HBRelease(addr *int32) {}
+func HBAcquire(addr *int32) {}
